@@ -11,6 +11,7 @@ import DesyncModel.Inv.OwnedReach
 import DesyncModel.Inv.JobMono
 import DesyncModel.Inv.WatchReach
 import DesyncModel.Inv.PendReach
+import DesyncModel.FactHandBack
 
 namespace Desync.C03
 open Desync Gen
@@ -226,5 +227,9 @@ theorem quiet_means_nothing_pending_or_running {s : State} (hr : ReachableNZ s) 
 /-- the premises are satisfiable: the initial state is reachable and quiet -/
 example : ReachableNZ (initState 2 1 3) ∧ AllQuiet (initState 2 1 3) :=
   ⟨ReachableNZ.init 2 1 3 (by decide), fun a => Or.inr (Or.inl (by simp [State.pcAt, initState])), fun p pt h => by simp [initState] at h⟩
+
+/-- the runners' hand-backs are unconditional in the source, as the model's `siIdle` / `sdIdle` / `sbStealIdle` / `dqIdle` steps are
+(regenerated fact): a queue is never left in a "somebody is running it" state because its runner found it changed -/
+theorem runners_hand_back_unconditionally : stateConditionalHandBacks = [] := hand_backs_are_unconditional
 
 end Desync.C03
